@@ -119,6 +119,14 @@ func RunC03(c *Ctx) error {
 					job.CtxSwap = 1 + r.Intn(3) // actions replace the parser's Context while Parse runs
 				}
 				job.MutateToks = si%7 == 2 // actions modify the tokens they are given
+				job.TokMethods = si%3 == 0 // actions call the tokens' convenience methods
+				if si%6 == 4 && len(s.Log) > 0 {
+					// an action runs a helper parser of the same package over another (small) sentence
+					inner := gr.Derive(r.Fork("nest"), 2+r.Intn(3))
+					job.NestAt = 1 + r.Intn(len(s.Log))
+					job.NestIn = toInput(inner, useTok, "valid")
+					job.NestExpect = inner.Result
+				}
 				n := len(s.Log)
 				if n <= maxFaults {
 					for k := 1; k <= n; k++ {
